@@ -214,6 +214,17 @@ func (w *World) InitServices(ctx context.Context) error {
 	return w.Pipelines.Init(ctx)
 }
 
+// GateCallbacks makes the persister's callbacks (run after a commit) a pending
+// action of the boundary scheduler (needs the 'verif' build tag hook in /repo).
+func (w *World) GateCallbacks() {
+	registerYield(w.Persister, func(point string) {
+		_ = w.Sched.Gate(context.Background(), point)
+	})
+}
+
+// Close removes the world's hooks.
+func (w *World) Close() { unregisterYield(w.Persister) }
+
 // Provision creates the pipeline, connectors and processors described by the case through the real services.
 func (w *World) Provision(ctx context.Context) error {
 	c := w.Case
